@@ -211,7 +211,7 @@ StSubscribe == /\ mpc = "new"
 StRead == /\ mpc = "subd"
           /\ IF closed /\ ~StartIgnoresClose
                THEN /\ mpc' = "done" /\ sub' = FALSE /\ q' = <<>>
-                    /\ UNCHANGED <<en, seed, ann, hdl, todo>>
+                    /\ seed' = iseed /\ UNCHANGED <<en, ann, hdl, todo>>
                ELSE /\ seed' = iseed
                     /\ IF ien THEN EnableCR ELSE UNCHANGED <<en, hdl, ann>>
                     /\ todo' = ToRequest /\ mpc' = "listed"
@@ -225,28 +225,30 @@ StLoop == /\ mpc = "listed" /\ todo = {}
           /\ mpc' = "loop"
           /\ UNCHANGED <<log, idx, nops, sub, q, gen, closed, cfin, en, seed, ann, hdl, todo, lkmap, procs, z, leak, adv, told, res>>
 
-\* one event under the manager lock
+\* the handlers (under the manager lock)
+Handle(e) ==
+  CASE e.t = "dis" ->
+         /\ IF en THEN en' = FALSE /\ ann' = 0 /\ hdl' = 0 ELSE UNCHANGED <<en, ann, hdl>>
+         /\ IF DisableKeepsLookups THEN UNCHANGED <<lkmap, procs, z, leak>>
+            ELSE Settle([id \in Ids |-> IF procs[id] = NoProc THEN NoProc ELSE [procs[id] EXCEPT !.can = TRUE]],
+                        [c \in Contacts |-> IF lkmap[c] = -1 THEN -1 ELSE 0])
+         /\ UNCHANGED seed
+    [] e.t = "en" -> UNCHANGED <<seed, lkmap, procs, z, leak>> /\ EnableCR
+    [] e.t = "rs" ->
+         /\ IF e.s = seed THEN UNCHANGED <<seed, ann>>          \* "unable to reset twice with the same seed"
+            ELSE seed' = e.s /\ ann' = IF en THEN e.s ELSE ann
+         /\ UNCHANGED <<en, hdl, lkmap, procs, z, leak>>
+    [] e.t = "enq" -> Register(e.c) /\ UNCHANGED <<en, seed, ann, hdl>>
+    [] e.t \in {"sent", "recv"} -> Unregister(e.c) /\ UNCHANGED <<en, seed, ann, hdl>>
+    [] e.t = "blk" /\ ~BlockKeepsLookup -> Unregister(e.c) /\ UNCHANGED <<en, seed, ann, hdl>>
+    [] OTHER -> UNCHANGED <<en, seed, ann, hdl, lkmap, procs, z, leak>>
+\* one event taken by the watcher's select (a repaired loop drops the event it took after close() and returns)
 HandleEvent ==
-  LET e == Head(q) IN
   /\ mpc = "loop" /\ q # <<>>
-  /\ closed => LoopHandlesAfterClose
-  /\ q' = Tail(q)
-  /\ CASE e.t = "dis" ->
-            /\ IF en THEN en' = FALSE /\ ann' = 0 /\ hdl' = 0 ELSE UNCHANGED <<en, ann, hdl>>
-            /\ IF DisableKeepsLookups THEN UNCHANGED <<lkmap, procs, z, leak>>
-               ELSE Settle([id \in Ids |-> IF procs[id] = NoProc THEN NoProc ELSE [procs[id] EXCEPT !.can = TRUE]],
-                           [c \in Contacts |-> IF lkmap[c] = -1 THEN -1 ELSE 0])
-            /\ UNCHANGED seed
-       [] e.t = "en" -> UNCHANGED <<seed, lkmap, procs, z, leak>> /\ EnableCR
-       [] e.t = "rs" ->
-            /\ IF e.s = seed THEN UNCHANGED <<seed, ann>>          \* "unable to reset twice with the same seed"
-               ELSE seed' = e.s /\ ann' = IF en THEN e.s ELSE ann
-            /\ UNCHANGED <<en, hdl, lkmap, procs, z, leak>>
-       [] e.t = "enq" -> Register(e.c) /\ UNCHANGED <<en, seed, ann, hdl>>
-       [] e.t \in {"sent", "recv"} -> Unregister(e.c) /\ UNCHANGED <<en, seed, ann, hdl>>
-       [] e.t = "blk" /\ ~BlockKeepsLookup -> Unregister(e.c) /\ UNCHANGED <<en, seed, ann, hdl>>
-       [] OTHER -> UNCHANGED <<en, seed, ann, hdl, lkmap, procs, z, leak>>
-  /\ UNCHANGED <<log, idx, nops, sub, gen, mpc, closed, cfin, todo, adv, told, res>>
+  /\ IF closed /\ ~LoopHandlesAfterClose
+       THEN mpc' = "done" /\ sub' = FALSE /\ q' = <<>> /\ UNCHANGED <<en, seed, ann, hdl, lkmap, procs, z, leak>>
+       ELSE q' = Tail(q) /\ UNCHANGED <<mpc, sub>> /\ Handle(Head(q))
+  /\ UNCHANGED <<log, idx, nops, gen, closed, cfin, todo, adv, told, res>>
 \* select took ctx.Done: the watcher returns, the subscription is closed
 WatcherExit == /\ mpc = "loop" /\ closed
                /\ mpc' = "done" /\ sub' = FALSE /\ q' = <<>>
@@ -305,7 +307,7 @@ ProcFastEnabled(id) ==
 Stopping == {id \in Ids : WStopEnabled(id)}
 FastProcs == {id \in Ids : ProcFastEnabled(id)}
 StartupEnabled == mpc \in {"new", "subd", "listed"}
-EventEnabled == mpc = "loop" /\ q # <<>> /\ (closed => LoopHandlesAfterClose)
+EventEnabled == mpc = "loop" /\ q # <<>>
 FastEnabled == \/ StartupEnabled \/ (mpc = "loop" /\ closed) \/ (closed /\ ~cfin) \/ Stopping # {} \/ FastProcs # {}
 SlowEnabled == \E c \in Contacts : z[c] > 0
 InternalEnabled == FastEnabled \/ SlowEnabled \/ EventEnabled
